@@ -778,6 +778,40 @@ mod conversions {
         }
         // from_value: reading a Liquid integer back into a Rust integer type gives the same number or an error
         use liquid_core::model::from_value;
+        // from_value into Value / Object: every pool value comes back as an equal value of the same kind; objects keep
+        // every key, nil members included, at any depth (round 10)
+        {
+            use liquid_core::model::ObjectView;
+            let mut o1 = Object::new(); o1.insert("only".into(), Value::Nil);
+            let mut o2 = Object::new(); o2.insert("a".into(), Value::Nil); o2.insert("b".into(), Value::scalar(1i64));
+            o2.insert("c".into(), Value::Object(o1.clone())); o2.insert("d".into(), Value::Array(vec![Value::Object(o1.clone()), Value::Nil]));
+            let extra = [("object {only: nil}".to_string(), Value::Object(o1), false), ("nested object with nil members".to_string(), Value::Object(o2), false)];
+            for (name, v, nan) in pool.iter().map(|(a, b, c)| (a.to_string(), b.clone(), *c)).chain(extra.into_iter()) {
+                if v.type_name().starts_with("date") || v.is_state() { continue; } // a date scalar comes back as the string that prints it, the empty/blank states as nil: not data, not decided here
+                n += 1;
+                let back: Value = match from_value(&v) { Ok(b) => b, Err(e) => return Err(format!("{name}: from_value::<Value> failed: {e}")) };
+                if back.type_name() != v.type_name() || (v.is_scalar() && format!("{}", back.source()) != format!("{}", v.source())) {
+                    return Err(format!("{name}: from_value::<Value> changed the datum: {} -> {}", v.source(), back.source()));
+                }
+                if !nan && !(ValueViewCmp::new(&back) == ValueViewCmp::new(&v)) {
+                    return Err(format!("{name}: from_value::<Value> is not equal to the value"));
+                }
+                for st in [State::Truthy, State::DefaultValue, State::Empty, State::Blank] {
+                    if back.query_state(st) != v.query_state(st) { return Err(format!("{name}: {st:?} answer changes through from_value::<Value>")); }
+                }
+                if let Some(o) = v.as_object() {
+                    let bo: Object = match from_value(&v) { Ok(b) => b, Err(e) => return Err(format!("{name}: from_value::<Object> failed: {e}")) };
+                    if bo.size() != o.size() || o.keys().any(|k| !bo.contains_key(k.as_str())) {
+                        return Err(format!("{name}: from_value::<Object> lost or gained keys: {} -> {}", v.source(), Value::Object(bo).source()));
+                    }
+                }
+            }
+            let m: std::collections::BTreeMap<String, Option<i64>> = [("set".to_string(), Some(3)), ("unset".to_string(), None)].into_iter().collect();
+            let mv = to_value(&m).map_err(|e| format!("to_value(map with None): {e}"))?;
+            if from_value::<std::collections::BTreeMap<String, Option<i64>>>(&mv).ok() != Some(m) {
+                return Err("a Rust map holding None does not survive to_value then from_value".to_string());
+            }
+        }
         for x in [i64::MIN, -1i64, 0, 1, 255, 256, 65535, 65536, u32::MAX as i64, u32::MAX as i64 + 1, i64::MAX] {
             let v = Value::scalar(x);
             n += 1;
